@@ -359,7 +359,7 @@ theorem alu_single (i : Insn) (x : Nat → Nat → Instr) (val : BitVec 64 → B
   have hm := hmach c σ (regOf i.src.toNat) (regOf i.dst.toNat)
   rw [hrel.regs _ hd, hrel.regs _ hs] at hm
   obtain ⟨σ', h1, h2, h3, h4, h5, h6⟩ := alu_fall_one c tgt a b retAddr σ s _ _ _ hd hchk hrip hrel hm
-  refine ⟨1, σ', h1, h2, ?_, h5, h6, rfl, Or.inl ⟨hpc, h4⟩⟩
+  refine ⟨1, σ', h1, h2, ?_, h5, h6, rfl, rfl, callersKept_of_mem σ σ' _ h3, Or.inl ⟨hpc, h4⟩⟩
   simp only [topBytes, h3]
 
 theorem alu_jitExec_eq (env : Env) (s : State) (i : Insn) (h : i.opc.toNat ∈ aluOpcodes) :
@@ -419,7 +419,7 @@ theorem alu_shreg (i : Insn) (w : Bool) (op : ShOp) (val : BitVec 64 → BitVec 
   rw [hrel1.regs _ hd, hg1] at hm
   obtain ⟨σ2, h1, h2, h3, h4, h5, h6⟩ :=
     alu_fall_one c tgt (a + n1) b retAddr σ1 s _ _ _ hd hrest (by rw [p1, Nat.add_assoc]) hrel1 hm
-  refine ⟨2, σ2, stepsN_add c 1 1 σ σ1 σ2 hst1 h1, h2, ?_, h5.trans l1, h6.trans g1, rfl, Or.inl ⟨hpc, h4⟩⟩
+  refine ⟨2, σ2, stepsN_add c 1 1 σ σ1 σ2 hst1 h1, h2, ?_, h5.trans l1, h6.trans g1, rfl, rfl, callersKept_of_mem σ σ2 _ (h3.trans m1), Or.inl ⟨hpc, h4⟩⟩
   simp only [topBytes, h3, m1]
 
 end Rbpf.JitSim
